@@ -89,6 +89,8 @@ var Inl = []string{
 	"<DIV>", "<XMP>", "<B>", "</DIV>", "<Script>",
 	"\ufeff", "\ufeff# h", "a\\\rb", "x\\\r\ny\\\rz", "[foo\\a]: /u", "[x][foo\\a]", "[ref\\1]", "[foo\\a]", "``` a&#32;b c\n", "~~~ x&Tab;y z\n", "``` a&nbsp;b\n", "- > q\n  ***\n  p", "- > q\n  # h\n  p\n- r", "> a\n>\n>\t  code", ">\t\tcode1\n>\t\tcode2", "> - a\n>\n>\tb",
 	"[\x00a\x00]: /u", "[\x00a\x00]", "\x00a\x00", "[a\x00\x00b\x00]", "`\x00 \x00`", "<a\x00b\x00>", "(/u\x00v\x00 \"t\x00\x00u\x00\")",
+	// a backslash before a non-ASCII character, NUL or invalid byte, in every place escapes are processed
+	"[t](/u\\é)", "[t](/u \"a\\猫\")", "[a\\é]: /u", "[a\\é]", "<a b=\"\\é\">", "`\\é`", "\\\x00", "[t](<\\é>)", "![\\é](/s '\\\x00')", "\\\xff", "[r]: /u\\é \"t\\ß\"\n",
 	// a NUL first on a continuation line of a multi-line label, title, tag or code span (behind whatever prefix the container has)
 	"[a\n\x00b]: /u", "[a\n\x00b]", "[x][a\x00\n\x00\x00b]", "[t](/u 'x\n\x00y')", "<a\n\x00b='c'>", "`c\n\x00d`", "[t](/u\n\"\x00\")",
 }
@@ -125,6 +127,7 @@ func construct(t *rapid.T) string {
 
 // Starts are the G2 block openers.
 var Starts = []string{"", "", "", "# ", "## ", "> ", "- ", "1. ", "   ", "    ", "\t", "```\n", "~~~\n", "<div>\n", "[r]: /u\n", "[r]: /u 't'\n", "---\n", "===\n", "* ", "+ ", "10) ", " > ", "  - ", "[a\nb]: /x\n", "[r]:\n/u\n", "[r]: /u\n'ti\ntle'\n", "<!-- x\n", "<pre>\n", "<script>\n", "``` info\n", "    code\n",
+	"``` a\\é\n", "~~~ \\猫 x\n", "``` go\\\x00 y\n", "```\\ß\n", "``` \\\xff\n",
 	"[r]: /u\n\t[s]: /v\n", "[r]: /u\n \t[s]: /v 't'\n", "[r]: /u\n     [s]: /v\n", "-\n", "1.\n", " -\n", "#######\n", "####### x\n", "###### \n"}
 
 var prefixes = []string{"", "> ", "  ", "   ", "> > ", ">  ", "    ", ">", "1. ", "- ", "10) ", "\t", "08. ", " - ", "  1. ", "0019) "}
